@@ -54,6 +54,16 @@ def cases(rng, tier):
             for pre in ([], [[0, 1]], [[0, 0]], [[0, 2]], [[0, 1], [0, 0]], [[2, 5]], [[2, 0]]):
                 for post in ([], [[0, 2]], [[0, 0]], [[0, 1]], [[2, 3]]):
                     out.append([5, L, [[rng.below(2), pre + [[2, t]] + post]], [0]])
+    # a WIDE configuration: more appenders than a 16-bit index can address; the attached ones (with chains and a
+    # failing one) are declared last, the first ones (whose chains would answer otherwise) are not attached
+    for n_apps in ([65540] if tier == "quick" else [65540, 131080]):
+        for L in (1, 4):
+            apps = [[0, [[0, 2]]], [1, [[0, 0]]], [0, [[0, 1], [0, 2]]]] + [[0, []] for _ in range(n_apps - 3)]
+            apps[65536] = [0, [[0, 1], [1, 3]]]
+            apps[65537] = [1, [[0, 0]]]
+            apps[65538] = [0, [[0, 2]]]
+            apps[n_apps - 1] = [1, []]
+            out.append([5, L, apps, [65536, 65537, 65538, n_apps - 1, 65537]])
     n_rand = 2000 if tier == "quick" else 40000
     for _ in range(n_rand):
         na = rng.range(1, 4)
